@@ -123,25 +123,49 @@ Theorem C16_offset_bases :
 Proof. exact offset_bases. Qed.
 
 (* Who stores what in a ParseError.  epytext passes Token.startline (0-based): the report names
-   docstring_lineno + startline.  The reST reader passes docutils' 1-based line unchanged, so the conversions do
-   NOT cancel there: a reST parse error whose block docutils places on (1-based) line L of the cleaned
-   docstring -- physical line docstring_lineno + L - 1 -- is reported on the line after it.
-   (known_findings/C16.json: C16-rst-parse-error-line-one-based; witness: a one-line docstring
-   "Bad **unclosed text." opening on line 2 is reported on line 3, outside the docstring.) *)
-Theorem C16_offset_bases_epytext_partial :
+   docstring_lineno + startline.  The reST reader (since the `fix:` commit 105813f) converts docutils' 1-based
+   line L, so a reST / google / numpy markup error whose block docutils places on line L of the cleaned
+   docstring is reported on physical line docstring_lineno + L - 1: the conversions cancel there too. *)
+Theorem C16_offset_bases_epytext :
   forall ds ln m d startline, ds <> 0 -> 0 <= startline ->
     report_line sec_docstring ds ln (perr_offset (epytext_perr d startline)) m = Num (ds + startline).
 Proof. exact epytext_parse_error_line. Qed.
 
-Theorem C16_offset_bases_rst_refuted :
-  ~ (forall ds ln m d L, ds <> 0 -> 1 <= L ->
-       report_line sec_docstring ds ln (perr_offset (rst_reader_perr d (Some L))) m = Num (ds + (L - 1))).
-Proof. exact rst_parse_error_line_refuted. Qed.
-
-Theorem C16_rst_parse_error_one_too_large :
+Theorem C16_offset_bases_rst :
   forall ds ln m d L, ds <> 0 -> 1 <= L ->
-    report_line sec_docstring ds ln (perr_offset (rst_reader_perr d (Some L))) m = Num (ds + (L - 1) + 1).
-Proof. exact rst_parse_error_one_too_large. Qed.
+    report_line sec_docstring ds ln (perr_offset (rst_reader_perr d (Some L))) m = Num (ds + (L - 1)).
+Proof. exact rst_parse_error_line. Qed.
+
+Theorem C16_offset_bases_rst_unknown_line :
+  forall ds ln m d, ds <> 0 ->
+    report_line sec_docstring ds ln (perr_offset (rst_reader_perr d None)) m = Num ds.
+Proof. exact rst_parse_error_unknown_line. Qed.
+
+(* The reader of the pinned commit (before 105813f) stored the 1-based line unchanged: every reST markup error
+   was reported one line too low; a one-line docstring "Bad **unclosed text." opening on line 2 was reported on
+   line 3, outside the docstring.  (known_findings/C16.json, "fixed") *)
+Theorem C16_offset_bases_rst_old_refuted :
+  ~ (forall ds ln m d L, ds <> 0 -> 1 <= L ->
+       report_line sec_docstring ds ln (perr_offset (rst_reader_perr_old d (Some L))) m = Num (ds + (L - 1))).
+Proof. exact rst_parse_error_line_old_refuted. Qed.
+
+Theorem C16_rst_parse_error_old_one_too_large :
+  forall ds ln m d L, ds <> 0 -> 1 <= L ->
+    report_line sec_docstring ds ln (perr_offset (rst_reader_perr_old d (Some L))) m = Num (ds + (L - 1) + 1).
+Proof. exact rst_parse_error_old_one_too_large. Qed.
+
+(* Still open: the "Unable to split consolidated field" error of _SplitFieldsTranslator.visit_field stores
+   node.line (1-based) unchanged -- a doctest of pydoctor pins the resulting number -- so exactly that message
+   is reported on the line after the field.  (known_findings/C16.json: C16-rst-consolidated-field-line-one-based) *)
+Theorem C16_offset_bases_rst_consolidated_refuted :
+  ~ (forall ds ln m d L, ds <> 0 -> 1 <= L ->
+       report_line sec_docstring ds ln (perr_offset (rst_consolidated_perr d L)) m = Num (ds + (L - 1))).
+Proof. exact rst_consolidated_line_refuted. Qed.
+
+Theorem C16_rst_consolidated_one_too_large :
+  forall ds ln m d L, ds <> 0 -> 1 <= L ->
+    report_line sec_docstring ds ln (perr_offset (rst_consolidated_perr d L)) m = Num (ds + (L - 1) + 1).
+Proof. exact rst_consolidated_one_too_large. Qed.
 
 (* ... and that is the line in the message that reaches stdout at any verbosity -1..100 *)
 Theorem C16_reports_print_that_line :
